@@ -475,4 +475,31 @@ CHECKS["C09"] = dict(
     thorough=dict(workers=16, cases=8000, maxsize=40),
 )
 
+CHECKS["C18"] = dict(
+    harness="C18_creds", sources=["props/C18_creds.cc", "shim/shim.c", "pki/pki.cc"], variant="asan",
+    level="exploration", engine="rapidcheck histories over a certificate directory tree / environment / attributes + PKI factory; SSL_CTX_new/free interposed",
+    technique="model-based property testing: generated histories of credential updates (rename-over, in-place "
+              "rewrite with equal size, symlink flip, XCM_TLS_CERT switch, by-file / by-value attribute overrides, "
+              "split by-value texts) interleaved with connection set-up and tear-down; the model records the "
+              "material designated at each creating call; observed through the certificate the other end sees "
+              "and through trust probes",
+    level_text="Four credential sets (own leaf and root each; trust store = one of two observer issuers), three "
+               "directories plus a symbolic link flipped between two of them, the XCM_TLS_CERT variable. Steps: "
+               "write a set with fresh inodes, rewrite in place (same inode, same padded size; optionally "
+               "restoring the mtime), flip the link, switch the variable, create a connection whose certificate "
+               "/ key / trust store each come from the environment directory, a *_file attribute or a by-value "
+               "attribute, probe an older connection, close, break the material (missing file, garbage, "
+               "mismatching key, directory instead of file, missing trust file), and pairs of by-value "
+               "configurations whose texts concatenate identically but split differently. The other end reads "
+               "tls.peer.cert.subject.cn; the trust store in force is probed by connecting to an observer whose "
+               "issuer is / is not in the designated store. After the last close the number of live SSL_CTX "
+               "objects must be back to the level at the start of the case. Sampled.",
+    level_note="Server-side subjects and CRL material are not generated; single-threaded (C15 covers threads).",
+    rule=("Non-trivial = a connection was created after an update while an older socket using the previous "
+          "material was still open (so a cache entry for the old material exists), or a split by-value pair."),
+    assumptions=["credential files are padded to equal length so that in-place rewrites keep the size"],
+    quick=dict(workers=16, cases=60, maxsize=40),
+    thorough=dict(workers=16, cases=3000, maxsize=40),
+)
+
 NOT_APPLICABLE = []
